@@ -416,6 +416,31 @@ def reg_rules(ctx: Ctx, rep: Report) -> None:
             'tokens and the flattened text loses the grouping '
             '(`2*(3+1)` is evaluated as 7)', key='brackets',
         )
+    # Numbers spliced into an expression tree are evaluated as text too: a
+    # formal parameter replaced by its (possibly negative) argument has to
+    # be written as a parenthesised atom, or `a^2` with a = -0.5 becomes
+    # `-0.5**2`.
+    mod = ctx.index.module(VIS)
+    splices = [c for c in ast.walk(mod.tree) if isinstance(c, ast.Call)
+               and norm(c.func) == 'lark.Token' and len(c.args) == 2
+               and isinstance(c.args[0], ast.Constant)
+               and c.args[0].value in ('REAL', 'NNINTEGER')]
+    rep.floor(Rl, len(splices), 1, 'numeric tokens created by the reader')
+    for c in splices:
+        rep.count()
+        v = c.args[1]
+        lits = [x.value for x in ast.walk(v) if isinstance(x, ast.Constant)
+                and isinstance(x.value, str)]
+        ok = isinstance(v, ast.JoinedStr) and bool(lits) and lits[0].startswith(
+            '(') and lits[-1].endswith(')')
+        rep.check(
+            ok, Rl, 'evaluator:spliced-number', VIS, c.lineno,
+            'a substituted number is written as a parenthesised atom',
+            f'`{norm(c)}` splices a run-time number into the expression '
+            'tree as bare text: a negative argument then binds weaker than '
+            '`^` (`g(-0.5)` with body `rz(a^2)` gives rz(-0.25))',
+            key='spliced-number',
+        )
     # the U and CX built-ins resolve through the table
     for k in ('U', 'CX'):
         rep.count()
